@@ -3,6 +3,7 @@
 package props
 
 import (
+	"encoding/json"
 	"fmt"
 	"strings"
 	"sync"
@@ -111,6 +112,58 @@ func init() {
 			return obs, matchExpected(c.Expected, obs), nil
 		}
 		o := runOp(e, t, c.Ctx, c.NavNS, c.Op)
+		obs := normalise(o, c.Mode)
+		return obs, matchExpected(c.Expected, obs), nil
+	})
+}
+
+// prevEval remembers the evaluations made so far on one compiled expression,
+// so that a violation that only shows on a RE-USED expression can be replayed.
+type prevEval struct {
+	Tree []doc.Spec `json:"tree"`
+	Ctx  int        `json:"ctx"`
+	Op   string     `json:"op"`
+}
+
+type histTracker struct{ last []prevEval }
+
+func (h *histTracker) note(t *doc.Tree, ctx int, op string) {
+	h.last = append(h.last, prevEval{t.ToSpec(), ctx, op})
+	if len(h.last) > 3 {
+		h.last = h.last[len(h.last)-3:]
+	}
+}
+
+// attach turns c into a history case: compile once, run the remembered
+// evaluations, then the failing one.
+func (h *histTracker) attach(c *report.Case) {
+	if len(h.last) == 0 {
+		return
+	}
+	b, _ := json.Marshal(h.last)
+	c.Kind = "evalhist"
+	if c.Extra == nil {
+		c.Extra = map[string]interface{}{}
+	}
+	c.Extra["previous_evaluations_on_the_same_compiled_expression"] = string(b)
+}
+
+func init() {
+	report.RegisterReplayer("evalhist", func(c *report.Case) (string, bool, error) {
+		var prev []prevEval
+		if s, ok := c.Extra["previous_evaluations_on_the_same_compiled_expression"].(string); ok {
+			if err := json.Unmarshal([]byte(s), &prev); err != nil {
+				return "", false, err
+			}
+		}
+		e, err, pan := eng.Compile(c.Expr, c.WithNS, c.NS)
+		if pan != nil || err != nil {
+			return fmt.Sprint("compile: ", err, pan), false, nil
+		}
+		for _, p := range prev {
+			runOp(e, doc.Build(p.Tree), p.Ctx, c.NavNS, p.Op)
+		}
+		o := runOp(e, doc.Build(c.Tree), c.Ctx, c.NavNS, c.Op)
 		obs := normalise(o, c.Mode)
 		return obs, matchExpected(c.Expected, obs), nil
 	})
